@@ -3,15 +3,15 @@ import OasisModel.Stateless.Merkle
 Model of the verification functions of the stateless consensus backend
 (`go/consensus/cometbft/stateless/core.go`): the *decision sequences* of
 
-  verifyBlock                 core.go:546
-  (*Core).verifyBlockResults  core.go:599   (incl. the "latest trusted height is skipped" branch)
-  verifyBlockResults          core.go:623
-  (*Core).verifyParameters    core.go:644
-  verifyTransactions          core.go:676
-  verifyTransactionProof      core.go:698
-  (*Core).verifyNextValidators core.go:705
-  fetchStateRoot / stateRootFromBlockTxs / stateRootFromMetaTx   core.go:800-858
-  fetchResultsHash            core.go:874
+  verifyBlock                 core.go:549
+  (*Core).verifyBlockResults  core.go:612   (incl. the "latest trusted height is skipped" branch)
+  verifyBlockResults          core.go:636
+  (*Core).verifyParameters    core.go:657
+  verifyTransactions          core.go:692
+  verifyTransactionProof      core.go:714
+  (*Core).verifyNextValidators core.go:721
+  fetchStateRoot / stateRootFromBlockTxs / stateRootFromMetaTx   core.go:816-874
+  fetchResultsHash            core.go:890   (line numbers as of /repo commit 8acc1f7)
 
 Third-party encoders/decoders and hashes that the Go code calls (CBOR, protobuf, the CometBFT
 header hash) are *parameters* (`Lib`), the Merkle trees are the model of `Merkle.lean` over the
@@ -202,7 +202,7 @@ def BV.toString : BV → String
 def commitHash (L : Lib Sig Ev P) (H : Bytes → Bytes) (c : Commit Sig) : Bytes :=
   Merkle.root H (c.sigs.map L.sigEnc)
 
-/-- `verifyBlock` (core.go:546). -/
+/-- `verifyBlock` (core.go:549). -/
 def verifyBlock (L : Lib Sig Ev P) (H : Bytes → Bytes) (b : Block) (lb : Header) : BV :=
   if b.height ≠ lb.height then .height
   else if b.hash ≠ L.headerHash lb then .hash
@@ -228,11 +228,11 @@ def verifyBlock (L : Lib Sig Ev P) (H : Bytes → Bytes) (b : Block) (lb : Heade
 
 /-! ### verifyTransactions, verifyTransactionProof -/
 
-/-- `verifyTransactions` (core.go:676): `true` is the nil error. -/
+/-- `verifyTransactions` (core.go:692): `true` is the nil error. -/
 def verifyTransactions (H : Bytes → Bytes) (txs : List Bytes) (lb : Header) : Bool :=
   Merkle.txRoot H txs == lb.dataHash
 
-/-- Outcome of `verifyTransactionProof` (core.go:698). -/
+/-- Outcome of `verifyTransactionProof` (core.go:714). -/
 inductive TPV where
   | decode | proof (v : Merkle.PV)
 deriving DecidableEq, Repr
@@ -240,7 +240,7 @@ deriving DecidableEq, Repr
 def TPV.toString : TPV → String
   | .decode => "decode" | .proof v => v.toString
 
-/-- `verifyTransactionProof` (core.go:698): `rawProof` is `proof.RawProof`, `tx` is
+/-- `verifyTransactionProof` (core.go:714): `rawProof` is `proof.RawProof`, `tx` is
 `cbor.Marshal(tx)`. A nil/empty data hash is Go's nil `rootHash`. -/
 def verifyTransactionProof (L : Lib Sig Ev P) (H : Bytes → Bytes) (rawProof tx : Bytes) (lb : Header) : TPV :=
   match L.decProof rawProof with
@@ -261,7 +261,7 @@ def RV.toString : RV → String
 def resultsHash (L : Lib Sig Ev P) (H : Bytes → Bytes) (m : ResultsMeta Ev) : Bytes :=
   Merkle.root H (m.txs.map fun r => L.detEnc r.code r.data r.gasWanted r.gasUsed)
 
-/-- The pure `verifyBlockResults` (core.go:623). Returns the decoded meta on success. -/
+/-- The pure `verifyBlockResults` (core.go:636). Returns the decoded meta on success. -/
 def verifyBlockResultsPure (L : Lib Sig Ev P) (H : Bytes → Bytes) (r : BlockResults) (rh : Bytes)
     (lb : Header) : RV × Option (ResultsMeta Ev) :=
   if r.height ≠ lb.height then (.height, none)
@@ -275,7 +275,7 @@ structure LightClient where
   trusted : Int → Option Header
   last : Option Int
 
-/-- `(*Core).verifyBlockResults` (core.go:599). -/
+/-- `(*Core).verifyBlockResults` (core.go:612). -/
 def verifyBlockResults (L : Lib Sig Ev P) (H : Bytes → Bytes) (lc : LightClient) (r : BlockResults)
     (lb : Header) : RV × Option (ResultsMeta Ev) :=
   match lc.last with
@@ -304,7 +304,7 @@ def VV.toString : VV → String
 def validatorsHash (L : Lib Sig Ev P) (H : Bytes → Bytes) (vs : ValidatorSet) : Bytes :=
   Merkle.root H (vs.validators.map fun v => L.valEnc v.pubKey v.power)
 
-/-- `(*Core).verifyNextValidators` (core.go:705). -/
+/-- `(*Core).verifyNextValidators` (core.go:721). -/
 def verifyNextValidators (L : Lib Sig Ev P) (H : Bytes → Bytes) (v : Validators) (lb : Header) : VV :=
   if v.height ≠ lb.height + 1 then .height
   else match L.decValidators v.metaB with
@@ -325,7 +325,7 @@ def PaV.toString : PaV → String
 def paramsHash (L : Lib Sig Ev P) (H : Bytes → Bytes) (p : CmtParams) : Bytes :=
   H (L.hashedParamsEnc p.blockMaxBytes p.blockMaxGas)
 
-/-- `(*Core).verifyParameters` (core.go:644). `state` is what the (state-proof verified)
+/-- `(*Core).verifyParameters` (core.go:657). `state` is what the (state-proof verified)
 consensus querier returns for `lb.Height` (`none`: the query failed). -/
 def verifyParameters (L : Lib Sig Ev P) (H : Bytes → Bytes) (p : Parameters P) (lb : Header)
     (state : Option P) : PaV :=
@@ -340,20 +340,20 @@ def verifyParameters (L : Lib Sig Ev P) (H : Bytes → Bytes) (p : Parameters P)
 
 /-! ### state root resolution -/
 
-/-- `stateRootFromBlockTxs` (core.go:833): the metadata transaction is the last one. -/
+/-- `stateRootFromBlockTxs` (core.go:849): the metadata transaction is the last one. -/
 def stateRootFromBlockTxs (L : Lib Sig Ev P) (txs : List Bytes) : Option Bytes :=
   match txs.getLast? with
   | none => none
   | some metaTx => L.decMetaTx metaTx
 
-/-- `fetchStateRootFromLightBlock(height+1)` (core.go:811): the next header's app hash, which
+/-- `fetchStateRootFromLightBlock(height+1)` (core.go:827): the next header's app hash, which
 must have the size of a hash. -/
 def stateRootFromNext (lc : LightClient) (height : Int) : Option Bytes :=
   match lc.trusted (height + 1) with
   | none => none
   | some nxt => if nxt.appHash.length = 32 then some nxt.appHash else none
 
-/-- `fetchStateRoot` (core.go:800): the next verified header's app hash, else the metadata
+/-- `fetchStateRoot` (core.go:816): the next verified header's app hash, else the metadata
 transaction of the block's *verified* transaction list (`GetTransactions`: light block at the
 height, provider's transactions, `verifyTransactions`). `providerTxs` is the provider's answer
 (`none`: the provider failed). -/
@@ -371,7 +371,7 @@ def fetchStateRoot (L : Lib Sig Ev P) (H : Bytes → Bytes) (lc : LightClient)
 
 The composition light client → provider → verification of `GetBlock` (core.go:107),
 `GetTransactions` (:318), `GetBlockResults` (:126), `GetValidators` (:182), `GetParameters` (:259),
-`StateRoot` (:456) and `SubmitTxWithProof` (:425).  `none` is an error return. -/
+`StateRoot` (:459) and `SubmitTxWithProof` (:425).  `none` is an error return. -/
 
 /-- The untrusted provider: arbitrary answers (`none`: an error). -/
 structure Provider (P : Type) where
@@ -387,7 +387,7 @@ structure Provider (P : Type) where
 /-- `consensusAPI.HeightLatest`. -/
 def heightLatest : Int := 0
 
-/-- `resolveHeight` (core.go:722) of a node that is not watching blocks: the latest height is
+/-- `resolveHeight` (core.go:738) of a node that is not watching blocks: the latest height is
 asked from the provider. -/
 def resolveHeight (pr : Provider P) (h : Int) : Option Int :=
   if h ≠ heightLatest then some h
@@ -395,7 +395,7 @@ def resolveHeight (pr : Provider P) (h : Int) : Option Int :=
     | some l => if l < 1 then none else some l
     | none => none
 
-/-- `(*Core).lightBlock` (core.go:751). -/
+/-- `(*Core).lightBlock` (core.go:767). -/
 def lightBlock (lc : LightClient) (pr : Provider P) (h : Int) : Option Header :=
   match resolveHeight pr h with
   | none => none
@@ -446,7 +446,7 @@ def getParameters (L : Lib Sig Ev P) (H : Bytes → Bytes) (lc : LightClient) (p
     | none => none
     | some p => if verifyParameters L H p lb (state lb.height) = .ok then some p else none
 
-/-- `StateRoot` (core.go:456, without the cache): the provider's transactions are requested for the
+/-- `StateRoot` (core.go:459, without the cache): the provider's transactions are requested for the
 height of the light block at `h`. -/
 def stateRoot (L : Lib Sig Ev P) (H : Bytes → Bytes) (lc : LightClient) (pr : Provider P) (h : Int) : Option Bytes :=
   match resolveHeight pr h with
